@@ -893,10 +893,28 @@ func p7open(i int, st Step, m *p7msg, a *p7alt, exp []byte) *Mismatch {
 	default:
 		var p *pkcs7.PKCS7
 		if p, err = pkcs7.Parse(der); err == nil {
-			if m.variant == "legacy" {
-				pt, err = p.DecryptCFCA(ce.cert, ke.key)
-			} else {
-				pt, err = p.Decrypt(ce.cert, ke.key)
+			dec := func(c *smx509.Certificate, k crypto.PrivateKey) ([]byte, error) {
+				if m.variant == "legacy" {
+					return p.DecryptCFCA(c, k)
+				}
+				return p.Decrypt(c, k)
+			}
+			pt, err = dec(ce.cert, ke.key)
+			// Open is pure (Pkcs7Sym: Open leaves the message unchanged): on the SAME parsed object every recipient
+			// in turn, and this key once more, must get what a fresh parse gives them
+			if mm := p7judgeOpen(i, st, err, pt, exp, note); mm != nil {
+				return mm
+			}
+			for _, r := range m.recipients {
+				if rpt, rerr := dec(r.cert, r.key); rerr != nil || !bytes.Equal(rpt, m.content) {
+					if a == nil {
+						return &Mismatch{Step: i, Kind: "mismatch", Got: p7errs(rerr) + " " + hx(rpt), Exp: "ok: " + hx(m.content), Note: "an intended recipient opening the same parsed message after another Decrypt call"}
+					}
+				}
+			}
+			pt2, err2 := dec(ce.cert, ke.key)
+			if (err == nil) != (err2 == nil) || !bytes.Equal(pt, pt2) {
+				return &Mismatch{Step: i, Kind: "mismatch", Got: p7errs(err2) + " " + hx(pt2), Exp: p7errs(err) + " " + hx(pt), Note: "the same Decrypt call repeated on one parsed message gives another result [" + note + "]"}
 			}
 		}
 	}
@@ -941,7 +959,18 @@ func p7openPsk(i int, st Step, m *p7msg, a *p7alt, exp []byte) *Mismatch {
 	var pt []byte
 	p, err := pkcs7.Parse(der)
 	if err == nil {
-		pt, err = p.DecryptUsingPSK(st.Hex("psk"))
+		psk := st.Hex("psk")
+		// a wrong key first, on the same parsed object: it must not disturb the message for the call that follows
+		if len(psk) > 0 {
+			wrong := append([]byte(nil), psk...)
+			wrong[0] ^= 0x5A
+			p.DecryptUsingPSK(wrong)
+		}
+		pt, err = p.DecryptUsingPSK(psk)
+		pt2, err2 := p.DecryptUsingPSK(psk)
+		if (err == nil) != (err2 == nil) || !bytes.Equal(pt, pt2) {
+			return &Mismatch{Step: i, Kind: "mismatch", Got: p7errs(err2) + " " + hx(pt2), Exp: p7errs(err) + " " + hx(pt), Note: "the same DecryptUsingPSK call repeated on one parsed message gives another result [" + note + "]"}
+		}
 	}
 	return p7judgeOpen(i, st, err, pt, exp, note)
 }
